@@ -57,6 +57,10 @@ type kvElection struct {
 	ctx    context.Context
 	cancel context.CancelFunc
 
+	// termCancel cancels the context handed to OnPromote for the current
+	// leadership term (guarded by mu).
+	termCancel context.CancelFunc
+
 	onPromote func(ctx context.Context, token string)
 	onDemote  func()
 
@@ -418,6 +422,15 @@ func (e *kvElection) becomeLeader(token string, rev uint64) {
 		e.validationLoop(e.ctx)
 	}()
 
+	// The promotion context lives exactly as long as this term: it is cancelled
+	// by becomeFollower on demotion and, being a child of the election context,
+	// by Stop/StopWithContext.
+	if e.termCancel != nil {
+		e.termCancel()
+	}
+	termCtx, termCancel := context.WithCancel(e.ctx)
+	e.termCancel = termCancel
+
 	if e.onPromote != nil {
 		log.Info("leader_promoted",
 			append(e.logWithContext(e.ctx),
@@ -437,7 +450,7 @@ func (e *kvElection) becomeLeader(token string, rev uint64) {
 					)
 				}
 			}()
-			promoteCtx, cancel := context.WithCancel(e.ctx)
+			promoteCtx, cancel := context.WithCancel(termCtx)
 			defer cancel()
 			e.onPromote(promoteCtx, token)
 		}()
@@ -519,6 +532,11 @@ func (e *kvElection) becomeFollower() bool {
 	if wasLeader {
 		e.recordLeaderDuration()
 		e.leaderStartTime.Store(time.Time{})
+	}
+
+	if e.termCancel != nil {
+		e.termCancel()
+		e.termCancel = nil
 	}
 
 	e.recordTransition(fromState, StateFollower)
